@@ -1,0 +1,25 @@
+//go:build verif
+
+// Package verifhook provides named yield/observation points for runtime verification.
+// With the build tag "verif" a callback installed with Set is called at every point;
+// without the tag At is an empty function.
+package verifhook
+
+import "sync/atomic"
+
+var callback atomic.Value // of func(string)
+
+// Set installs the callback invoked at every hook point (nil removes it).
+func Set(fn func(point string)) {
+	if fn == nil {
+		fn = func(string) {}
+	}
+	callback.Store(fn)
+}
+
+// At reports that the calling goroutine reached the named point.
+func At(point string) {
+	if fn, ok := callback.Load().(func(string)); ok {
+		fn(point)
+	}
+}
